@@ -85,7 +85,7 @@ def universe():
                                   ("some", ["nosuch"])]
                     if len(names) > 1:
                         strategies.append(("some", [names[0], names[1]]))
-                    cwds = [["ws"], ["ws", "m1"], ["ws", "m1", "src"]]
+                    cwds = [["ws"], ["ws", "m1"], ["ws", "m1", "src"], ["ws", "src"], ["ws", "docs", "x"]]
                     for (st, hit) in strategies:
                         for cwd in cwds:
                             sc = dict(w)
